@@ -278,11 +278,17 @@ func (jr *jpegReader) readExif() (err error) {
 		// Set Tiff Header
 		exifHeader := meta.NewExifHeader(byteOrder, firstIfdOffset, jr.discarded, exifLength, imagetype.ImageJPEG)
 
-		if err = jr.ExifReader(jr.br, exifHeader); err != nil {
+		cr := countReader{br: jr.br}
+		err = jr.ExifReader(&cr, exifHeader)
+		// Account for the bytes consumed by the ExifReader
+		jr.discarded += uint32(cr.n)
+		if err != nil {
 			return err
 		}
 		// Discard remaining bytes
-		remain = 0
+		if remain -= cr.n; remain < 0 {
+			remain = 0
+		}
 	}
 
 	// Discard remaining bytes
@@ -302,7 +308,10 @@ func (jr *jpegReader) readXMP() (err error) {
 	// Read XMP Decode Function here
 	if jr.XMPReader != nil {
 		r := io.LimitReader(jr.br, int64(remain))
-		if err = jr.XMPReader(r); err != nil {
+		err = jr.XMPReader(r)
+		// Account for the bytes consumed by the XMPReader
+		jr.discarded += uint32(remain - int(r.(*io.LimitedReader).N))
+		if err != nil {
 			return err
 		}
 		// Discard remaining bytes
@@ -310,6 +319,27 @@ func (jr *jpegReader) readXMP() (err error) {
 	}
 	// Discard remaining bytes
 	return jr.discard(remain)
+}
+
+// countReader counts the bytes a metadata reader consumes from the
+// underlying bufio.Reader so that absolute offsets stay correct.
+type countReader struct {
+	br *bufio.Reader
+	n  int
+}
+
+func (cr *countReader) Read(p []byte) (n int, err error) {
+	n, err = cr.br.Read(p)
+	cr.n += n
+	return n, err
+}
+
+func (cr *countReader) Peek(n int) ([]byte, error) { return cr.br.Peek(n) }
+
+func (cr *countReader) Discard(n int) (discarded int, err error) {
+	discarded, err = cr.br.Discard(n)
+	cr.n += discarded
+	return discarded, err
 }
 
 // readSOFMarker reads a JPEG Start of file with the uint16
